@@ -56,4 +56,5 @@ def run(chk, replay=None):
     C.loaded_samples_check(chk)
     C.histories_check(chk, drv)
     C.alive_across_load_check(chk)
+    C.fresh_process_documents_check(chk)
     return chk.finish()
